@@ -40,6 +40,8 @@ def spell_int(rng, v):
         options.append("esc")
     if (32 <= v < 127 and v not in (92,)) or (160 <= v < 0xD800) or (0xE000 <= v < 0xFFFE):
         options += ["chr", "chr"]
+    if v in (9, 11, 12, 13):
+        options.append("literal-control")
     if 0 <= v < 256:
         options.append("xesc")
     if 0 <= v < 0x10000 and not (0xD800 <= v <= 0xDFFF):
@@ -60,6 +62,8 @@ def spell_int(rng, v):
         return rng.choice([name, name.upper(), name.capitalize()])
     q = rng.choice("'\"")
     prefix = rng.choice("uU") if rng.random() < 0.1 else ""  # the documented u"..." spelling
+    if how == "literal-control":
+        return q + chr(v) + q  # the character itself between the quotes (tab, vertical tab, form feed, carriage return)
     if how == "esc":
         e = {9: "\\t", 10: "\\n", 13: "\\r", 92: "\\\\", 39: "\\'", 34: '\\"'}[v]
         return prefix + q + e + q
